@@ -61,12 +61,15 @@ class ProgGen:
         if k < 0.68:
             return f"({self.e_int(d + 1)})"
         if k < 0.72:
-            return f"-{self.atom_int(d + 1)}"
+            return f"{r.choice(['-', '-', '+', '－', '＋'])}{self.atom_int(d + 1)}"
         if k < 0.78:
             return f"{self.e_bool(d + 1)} ? {self.e_int(d + 1)} : {self.e_int(d + 1)}"
         if k < 0.82 and self.dice:
             return self.dice_term()
         if k < 0.86:
+            if r.random() < 0.3:
+                # postfix forms on an array literal: [..]kh, [..]kl2, [..][i]
+                return f"[{r.randint(0, 9)}, {r.randint(0, 9)}, {self.atom_int(d + 2)}]{r.choice(['kh', 'kl', 'kh2', 'kl1', '[0]', '[1][0]' if False else '[-1]'])}"
             return f"{self.e_arr(d + 1)}.{r.choice(['len()', 'sum()', 'kh()', 'kl(2)', 'kh(1)'])}"
         if k < 0.89:
             a = self.pick_var("arr")
@@ -84,7 +87,10 @@ class ProgGen:
         return f"(null ?? {self.e_int(d + 1)})"
 
     def atom_int(self, d):
-        return f"({self.e_int(d)})" if self.r.random() < 0.5 else str(self.r.randint(0, 9))
+        k = self.r.random()
+        if k < 0.08:
+            return self.r.choice(["true", "false"])           # keyword spellings of 1 and 0
+        return f"({self.e_int(d)})" if k < 0.5 else str(self.r.randint(0, 9))
 
     def e_bool(self, d):
         r = self.r
@@ -177,9 +183,12 @@ class ProgGen:
             return "(" + r.choice(["d", "3d", "d优势", "d劣势", "2d", "dk", "3dk2", "(2)d"]) + ")"
         if k < 0.55:
             t = r.choice(["", "2", "3", "4"])
-            s = f"{t}d{r.choice([4, 6, 8, 20, 100])}"
+            s = f"{t}{r.choice('dddD')}{r.choice([4, 6, 8, 20, 100])}"
             if t and r.random() < 0.4:
-                s += r.choice(["k", "kh", "kl", "dl", "dh", "q"]) + str(r.randint(1, 3))
+                # every spelling, the count written, parenthesised or left out (then it is 1)
+                s += r.choice(["k", "kh", "kl", "dl", "dh", "q", "K", "Q"]) + r.choice([str(r.randint(1, 3)), str(r.randint(1, 3)), "", f"({r.randint(1, 2)})"])
+            elif not t and r.random() < 0.15:
+                s += r.choice(["优势", "劣势", "優勢", "劣勢"])
             if r.random() < 0.2:
                 s += r.choice(["min", "max"]) + str(r.randint(1, 4))
             return s
@@ -255,13 +264,13 @@ class ProgGen:
         if k < 0.82:
             a = self.pick_var("arr")
             if a:
-                return r.choice([f"{a}[0] = {self.e_int(2)}", f"{a}.push({self.e_int(2)})", f"{a}[0:1] = {self.e_arr(2)}", f"{a}.pop()"])
+                return r.choice([f"{a}[0] = {self.e_int(2)}", f"{a}.push({self.e_int(2)})", f"{a}[0:1] = {self.e_arr(2)}", f"{a}.pop()", f"{a}[0:2:]", f"{a}[1::]", f"{a}[0:2:1]", f"{a}[::]"])
         if k < 0.88:
             dv = self.pick_var("dict")
             if dv:
                 return r.choice([f"{dv}.k = {self.e_int(2)}", f"{dv}['m'] = {self.e_str(2)}"])
         if k < 0.92 and self.in_func:
-            return f"if {self.e_bool(2)} {{ return {self.e_int(2)} }}"
+            return f"if {self.e_bool(2)} {{ return {self.e_int(2)} }}" if r.random() < 0.8 else f"if {self.e_bool(2)} {{ return }}"
         return f"this.{self.fresh('t')} = {self.e_int(2)}" if r.random() < 0.3 else self.expr("int", 1)
 
     def block(self, d):
